@@ -343,9 +343,9 @@ def parseAreaComp (sph : Bool) (corners : List (P2 R)) (model : String) (c : Cur
     let op ← pmLift c.getOp
     let cutoff ← pmLift (c.getNum "cutoff pressure")
     let lith ← pmLift (c.getStr "lithology")
-    -- any other string leaves `lithology_type` uninitialised in the C++ (no check, not an enum in the schema): not modelled
+    -- `WBAssertThrow(false, "The lithology … is not a valid option")` (fixed upstream: any other string left `lithology_type` uninitialised)
     match Lithology.ofString lith with
-    | none => pmErr .unsupported
+    | none => pmErr .other
     | some l => return .tianWater rng op comps ⟨density, l, maxWater, cutoff⟩
   | _ => pmErr .unsupported
 
@@ -584,9 +584,9 @@ def parseLineComp (isFault : Bool) (model : String) (c : Cur) : Except Err (Line
       let cutoff : R ← c.getNum "cutoff pressure"
       let op ← c.getOp
       let lith ← c.getStr "lithology"
-      -- any other string leaves `lithology_type` uninitialised in the C++: not modelled
+      -- `WBAssertThrow(false, "The lithology … is not a valid option")` (fixed upstream)
       match Lithology.ofString lith with
-      | none => .error .unsupported
+      | none => .error .other
       | some l => return .tianWater mn mx op comps ⟨density, l, maxWater, cutoff⟩
   | _ => .error .unsupported
 
